@@ -193,7 +193,8 @@ def check(model: Model, run: Run) -> None:
     run.coverage["undecided_index_sites"] = undecided
     for u in undecided:
         run.note("undecided (window-view index, relational arithmetic): " + u)
-    fsites = [s for s in mr.implicit_sites if s["function"].startswith(FILTER + "._unpack") or s["function"].startswith(ENTRY)]
+    pq = {f.qualname for f in fa_.parser_functions}
+    fsites = [s for s in mr.implicit_sites if s["function"] in pq or s["function"].startswith(FILTER + "._unpack") or s["function"].startswith(ENTRY)]
     run.floor("implicit raiser sites in the string parser", len(fsites), 15)
     for s in fsites[:10]:
         run.samples.append({"site": f"{s['function'].split('.')[-1]}: {s['construct']}", "verdict": s["verdict"], "reason": s["reason"]})
@@ -342,6 +343,15 @@ def validated(model: Model, mr, fi: FuncInfo, expr: ast.expr, at: ast.AST, depth
                     q = model.resolve_name(fi.module, norm(n.value.func))
                     if q in model.functions:
                         return helper_component_validated(model, mr, model.functions[q], idx)
+                    try:
+                        res = mr.r.callees(n.value, fi, None)
+                    except Exception:
+                        res = ("unknown",)
+                    if res[0] == "funcs" and res[1]:
+                        # a method of the parser object (every implementation it may resolve to)
+                        outs = [helper_component_validated(model, mr, g, idx) for g in res[1]]
+                        bad = [o for o in outs if not o[0]]
+                        return bad[0] if bad else outs[0]
         # plain assignments: every one must be a validated value
         binds = [n for n in walk_no_nested(fi.node) if isinstance(n, ast.Assign) and any(isinstance(t, ast.Name) and t.id == expr.id for t in n.targets)]
         if binds:
@@ -379,7 +389,7 @@ def guard_rule(model: Model, mr, run: Run, reach: List[str]) -> None:
     n = 0
     for fq in reach:
         fi = model.functions[fq]
-        if isinstance(fi.node, ast.Lambda) or fi.cls is not None:
+        if isinstance(fi.node, ast.Lambda) or (fi.cls is not None and (fi.cls in filt_classes or fi.cls == f"{FILTER}.LDAPFilter")):
             continue
         for c in walk_no_nested(fi.node):
             if not isinstance(c, ast.Call):
